@@ -105,6 +105,7 @@ static void checkHost(const AnyP::Uri &u)
         for (size_t i = 0; i + 1 < n; ++i) vf_assert(!(h[i] == '.' && h[i + 1] == '.'), "accepted host has no empty inner label");
     }
 }
+static bool onlyBracketedNames = false, onlyEncodedPaths = false; // set by the known-finding entries only
 static bool pathBytesSurviveCanonicalForm(const SBuf &p)
 {
     // the bytes absolute() leaves alone (RFC 3986 pchar and '/'), i.e. AnyP::Uri's PathChars
@@ -119,10 +120,13 @@ static bool pathBytesSurviveCanonicalForm(const SBuf &p)
 }
 static void pathsAgree(const AnyP::Uri &u, const AnyP::Uri &again)
 {
+    if (onlyEncodedPaths) vf_assume(!pathBytesSurviveCanonicalForm(u.path()));
     if (pathBytesSurviveCanonicalForm(u.path()))
         vf_assert(sbufEq(again.path(), u.path()), "re-parsed path equals the path");
+    else if (onlyEncodedPaths)
+        vf_assert(sbufEq(again.path(), u.path()), "re-parsed path equals the path"); // KNOWN FINDING C30-path-reencoded
     else {
-        // KNOWN-FINDING candidate: absolute() percent-encodes every path byte outside pchar|'/' -- including the
+        // KNOWN FINDING C30-path-reencoded (known_findings.json; strict assertion only in c30_known_encoded_path): absolute() percent-encodes every path byte outside pchar|'/' -- including the
         // query delimiter '?', '#', '"', '<', bytes >= 0x80 ... -- so for such paths the re-parsed path is the
         // ENCODED text ("/a?b" -> "/a%3Fb"), not "the same path". For this class only stability of the canonical
         // form is asserted.
@@ -135,13 +139,8 @@ static void pathsAgree(const AnyP::Uri &u, const AnyP::Uri &again)
 static void checkUri(const Http::MethodType mt, const uint8_t *in, const unsigned n, const unsigned authorityAt)
 {
     const PortText pt = splitAuthority(in + authorityAt, n - authorityAt);
-#ifndef C30_INCLUDE_ATOI_PORTS
-    // KNOWN-FINDING candidate: the non-CONNECT branch converts the port with atoi(): a leading sign ("+80"), trailing
-    // garbage ("80abc", "1.a") and values that wrap modulo 2^32 ("4294967376" -> 80) are accepted instead of rejected.
-    // Exactly the port texts atoi() maps into 1..65535 although they are not a decimal number in that range are
-    // excluded; all other malformed/out-of-range port texts must be rejected. Run with C30_ATOI_PORTS=1 to see them.
-    vf_assume(!pt.atoiLenient);
-#endif
+    // (The non-CONNECT port used to go through atoi(): '+80', '80abc', 4294967376 were accepted. Repaired in /repo by the
+    // 'fix: URI port was converted with atoi() ...' commit, so every port text is examined here.)
     const HttpRequestMethod method(mt);
     const SBuf raw(reinterpret_cast<const char *>(in), n);
     AnyP::Uri u;
@@ -156,19 +155,16 @@ static void checkUri(const Http::MethodType mt, const uint8_t *in, const unsigne
     vf_observe("path", sbufHash(u.path()));
     if (u.getScheme() == AnyP::PROTO_URN || (n == 1 && in[0] == '*')) { vf_reach("other"); WITNESS_POINT(); return; }   // urn: and OPTIONS * have no authority
 
-#ifndef C30_INCLUDE_EMPTY_HOST
-    // KNOWN-FINDING candidate: the "missing hostname" test runs before the port is split off and before trailing dots
-    // are removed, so "http://./x", "http://:80/" (and CONNECT ".:443") are accepted with an EMPTY host.
-    // Run with C30_EMPTY_HOST=1 to see the counterexamples.
-    if (!u.host()[0]) { vf_reach("empty-host"); WITNESS_POINT(); return; }
-#endif
-#ifndef C30_INCLUDE_BRACKETED_NAMES
-    // KNOWN-FINDING candidate: for a host that starts with '[' the brackets are stripped whatever is inside (and a
-    // missing ']' is tolerated); if the content is not an IP address it becomes the host name as is, e.g.
-    // "http://[a:80]/" -> host "a:80", "http://[:.a/" -> host ":.a". absolute() prints such hosts without brackets,
-    // so the canonical form re-parses to another host/port or is rejected. Run with C30_BRACKETED_NAMES=1 to see it.
-    if (bracketedAuthority(in + authorityAt, n - authorityAt) && !u.hostIsNumeric()) { vf_reach("bracketed-name"); WITNESS_POINT(); return; }
-#endif
+    // (An empty final host, e.g. 'http://./x' or 'http://:80/', used to be accepted; repaired in /repo by the
+    // 'fix: URIs whose host becomes empty ...' commit. checkHost() below asserts a non-empty host.)
+    // KNOWN FINDING C30-bracketed-names (known_findings.json): for a host that starts with '[' the brackets are stripped
+    // whatever is inside (and a missing ']' is tolerated); if the content is not an IP address it becomes the host name
+    // as is, e.g. "http://[a:80]/" -> host "a:80", "http://[:.a/" -> host ":.a". absolute() prints such hosts without
+    // brackets, so the canonical form re-parses to another host/port or is rejected. The class is examined only by the
+    // entry c30_known_bracketed_names and skipped by all others.
+    const bool bracketedName = bracketedAuthority(in + authorityAt, n - authorityAt) && !u.hostIsNumeric();
+    if (onlyBracketedNames) vf_assume(bracketedName);
+    else if (bracketedName) { vf_reach("bracketed-name"); WITNESS_POINT(); return; }
     checkHost(u);
     vf_assert(u.port().has_value() && *u.port() >= 1, "accepted URI has a port in 1..65535");
     const unsigned dflt = refDefaultPort(u.getScheme());
@@ -214,8 +210,8 @@ static void configure(const bool symbolicCheckHostnames)
 
 // host bytes (may turn into ':', '@', '[', '/', '.', upper case ...), check_hostnames off and on
 URL_FAMILY(c30_host_head, false, T("http://\x01\x01.a/", "http://\x01\x01\x01.a/"), 7)
-URL_FAMILY(c30_host_tail, false, T("http://A\x01\x01/x", "http://A\x01\x01\x01/x"), 7)
-URL_FAMILY(c30_host_checked, true, T("http://B\x01.a/", "http://B\x01\x01"), 7)
+URL_FAMILY(c30_host_tail, false, "http://A\x01\x01/x", 7)
+URL_FAMILY(c30_host_checked, true, "http://B\x01.a/", 7)
 // port text
 URL_FAMILY(c30_port, false, "https://h.a:\x01\x01/", 8)
 URL_FAMILY(c30_port_end, false, "http://h.a:8\x01\x01", 7)
@@ -277,9 +273,6 @@ static void checkConnect(const uint8_t *in, const unsigned n)
     if (!ok) { vf_reach("rejected"); WITNESS_POINT(); return; }
     vf_observe("port", u.port().value_or(0));
     vf_observe("host", sbufHash(SBuf(u.host())));
-#ifndef C30_INCLUDE_EMPTY_HOST
-    if (!u.host()[0]) { vf_reach("empty-host"); WITNESS_POINT(); return; }   // KNOWN-FINDING candidate, see checkUri()
-#endif
     checkHost(u);
     vf_assert(u.port().has_value() && *u.port() == pt.value && pt.value >= 1, "CONNECT port equals the decimal port written");
     const SBuf canon = u.authority(true);
@@ -309,3 +302,7 @@ extern "C" void c30_e_path(void) { c30_path(); }
 extern "C" void c30_e_any(void) { c30_any(); }
 extern "C" void c30_e_connect(void) { PICK(4); if (f == 0) c30_connect_host(); else if (f == 1) c30_connect_port(); else if (f == 2) c30_connect_port_limit(); else c30_connect_ipv6(); }
 extern "C" void c30_e_connect_any(void) { c30_connect_any(); }
+
+// ------------------------------------------------------------------------------------------------ known findings (see known_findings.json)
+extern "C" void c30_known_bracketed_names(void) { onlyBracketedNames = true; c30_ipv6(); }
+extern "C" void c30_known_encoded_path(void) { onlyEncodedPaths = true; c30_path(); }
